@@ -126,3 +126,10 @@ Theorem C04_translated_batch_is_spec :
   exists lvs', RV.Proofs.CodeTree.gen_batch H v lvs ls = Ok (lvs', spec_root H v ls, spec_paths H v ls) /\ lvs' <> [].
 Proof. exact RV.Proofs.CodeTree.gen_batch_is_spec. Qed.
 Print Assumptions C04_translated_batch_is_spec.
+
+(* MerkleTree::new AS TRANSLATED: one empty leaf level, the version as given *)
+Require RV.Proofs.CodeSmall.
+Theorem C04_translated_tree_new_is_model :
+  forall v, RV.Gen.Code.gen_tree_new v = Ok (tree_new v).
+Proof. exact RV.Proofs.CodeSmall.gen_tree_new_model. Qed.
+Print Assumptions C04_translated_tree_new_is_model.
